@@ -18,6 +18,21 @@ std::thread_local! {
     static LIVE: RefCell<BTreeSet<u64>> = const { RefCell::new(BTreeSet::new()) };
     static ZLIVE: Cell<i64> = const { Cell::new(0) };
     static TRACK_ERR: RefCell<Option<String>> = const { RefCell::new(None) };
+    /// the concrete dynamic ids behind the key indices 0..ND (index 0 is always dynamic id 0, the slot of the typed calls)
+    static DYN: Cell<[u64; 3]> = const { Cell::new([0, 1, 2]) };
+    static ND: Cell<u8> = const { Cell::new(2) };
+}
+
+pub fn set_dyn(ids: &[u64]) {
+    assert!(ids.len() >= 2 && ids.len() <= 3 && ids[0] == 0);
+    let mut a = [0u64, 1, 2];
+    a[..ids.len()].copy_from_slice(ids);
+    DYN.with(|d| d.set(a));
+    ND.with(|n| n.set(ids.len() as u8));
+}
+
+fn nd() -> u8 {
+    ND.with(|n| n.get())
 }
 
 fn reset_tracker() {
@@ -135,7 +150,7 @@ fn type_id_of(ty: u8) -> TypeId {
 }
 
 fn rid(ty: u8, d: u8) -> ResourceId {
-    ResourceId::from_type_id_and_dynamic_id(type_id_of(ty), d as u64)
+    ResourceId::from_type_id_and_dynamic_id(type_id_of(ty), DYN.with(|x| x.get())[d as usize])
 }
 
 #[derive(Clone, Copy, Debug, PartialEq, Eq, Hash)]
@@ -180,7 +195,7 @@ pub fn alphabet(full: bool) -> Vec<Op9> {
         v.push(Op9::SetupWrite(t));
         v.push(Op9::ExecWrite(t));
         v.push(Op9::SystemDataOpt(t));
-        for d in 0..2u8 {
+        for d in 0..nd() {
             v.push(Op9::HasValueRaw(t, d));
             v.push(Op9::GetMutRaw(t, d));
             for k in 0..3u8 {
@@ -415,8 +430,9 @@ fn apply(w: &mut World, m: &mut Model, op: Op9) -> Result<(), (String, String)> 
 
 /// Probe the whole universe and compare with the model.
 fn probe(w: &mut World, m: &Model) -> Result<(), (String, String)> {
+    let nd = nd();
     for t in 0..3u8 {
-        for d in 0..2u8 {
+        for d in 0..nd {
             let id = rid(t, d);
             let present = w.has_value_raw(id.clone());
             if present != m.contains_key(&(t, d)) {
@@ -463,7 +479,7 @@ fn probe(w: &mut World, m: &Model) -> Result<(), (String, String)> {
 }
 
 /// Replay a history on a fresh world; returns the presence bitmap of the final state.
-pub fn run_history(h: &[Op9]) -> Result<u8, (String, String, usize)> {
+pub fn run_history(h: &[Op9]) -> Result<u16, (String, String, usize)> {
     reset_tracker();
     let mut w = World::empty();
     let mut m = Model::new();
@@ -471,9 +487,9 @@ pub fn run_history(h: &[Op9]) -> Result<u8, (String, String, usize)> {
         apply(&mut w, &mut m, *op).map_err(|(s, e)| (s, e, i))?;
         probe(&mut w, &m).map_err(|(s, e)| (s, e, i))?;
     }
-    let mut bits = 0u8;
+    let mut bits = 0u16;
     for ((t, d), _) in &m {
-        bits |= 1 << (t * 2 + d);
+        bits |= 1 << (t * 3 + d);
     }
     drop(w);
     let live = LIVE.with(|l| l.borrow().len());
@@ -499,8 +515,8 @@ fn finding(sig: String, msg: String, h: &[Op9], at: usize) -> Finding {
     Finding {
         prop: "C09".into(),
         sig,
-        msg: format!("{} | at step {} of history {:?}", msg, at, h),
-        replay: json!({"kind":"c09-history","history": h.iter().map(|o| format!("{:?}", o)).collect::<Vec<_>>()}),
+        msg: format!("{} | at step {} of history {:?} | dynamic ids {:?}", msg, at, h, &DYN.with(|d| d.get())[..nd() as usize]),
+        replay: json!({"kind":"c09-history","history": h.iter().map(|o| format!("{:?}", o)).collect::<Vec<_>>(), "dyn_ids": DYN.with(|d| d.get())[..nd() as usize].iter().map(|x| x.to_string()).collect::<Vec<_>>()}),
         size: h.len(),
     }
 }
@@ -508,11 +524,12 @@ fn finding(sig: String, msg: String, h: &[Op9], at: usize) -> Finding {
 /// (a) every history up to `depth` over `alpha` (no de-duplication), in
 /// parallel over the first operation; (b) BFS with de-duplication on the
 /// observed state (presence bitmap) until closure, every op from every state.
-pub fn run(depth: usize, full: bool, deadline: std::time::Instant, threads: usize, col: &mut Collector) -> (C9Stats, Vec<Value>) {
+pub fn run(depth: usize, full: bool, dyn_ids: &[u64], deadline: std::time::Instant, threads: usize, col: &mut Collector) -> (C9Stats, Vec<Value>) {
+    set_dyn(dyn_ids);
     let alpha = alphabet(full);
     let mut st = C9Stats { histories: 0, transitions: 0, states: 0, max_depth: 0, capped: false };
     // (b) BFS with dedup
-    let mut seen: HashSet<u8> = HashSet::new();
+    let mut seen: HashSet<u16> = HashSet::new();
     let mut frontier: VecDeque<Vec<Op9>> = VecDeque::new();
     seen.insert(0);
     frontier.push_back(vec![]);
@@ -541,6 +558,7 @@ pub fn run(depth: usize, full: bool, deadline: std::time::Instant, threads: usiz
     std::thread::scope(|s| {
         for _ in 0..threads {
             s.spawn(|| {
+                set_dyn(dyn_ids);
                 let mut hist = 0u64;
                 let mut trans = 0u64;
                 let mut c = Collector::default();
